@@ -57,7 +57,10 @@ class BoundedStream(io.IOBase):
         return self
 
     def __next__(self) -> bytes:
-        return next(self.stream)
+        line = self.readline()
+        if not line:
+            raise StopIteration
+        return line
 
     next = __next__
 
